@@ -39,6 +39,11 @@ fn c13_forward(p: u8) {
     if is_key_event(&e2) {
         assert!(e1 == e2, "C13: Set 2 sequence and its i8042 translation decode to different events");
     }
+    // both decoders are back at the start after a complete sequence, so the per-sequence agreement
+    // composes to whole streams (state identity; a failure alone triggers the two-sequence search)
+    // (a translated break byte that collides with a Set 1 prefix byte, 0x60/0x61 | 0x80, is not a complete sequence there)
+    let collides = p == 0 && (b1 == 0xE0 || b1 == 0xE1);
+    assert!(s2 == ScancodeSet2::new() && (collides || s1 == ScancodeSet1::new()), "C13 closure: a decoder is not back in its initial state after a complete sequence");
     kani::cover!(is_key_event(&e2) && brk);
 }
 
@@ -85,6 +90,60 @@ macro_rules! c13_p {
 c13_p!(c13_q_forward_plain, c13_q_backward_plain, 0);
 c13_p!(c13_q_forward_e0, c13_q_backward_e0, 1);
 c13_p!(c13_q_forward_e1, c13_q_backward_e1, 2);
+
+/// Deep (also run when a closure assertion fails): two complete symbolic Set 2 sequences back to
+/// back and their byte-wise i8042 translation; wherever the second Set 2 sequence yields a key
+/// event, the translated stream yields the identical event at the same position.
+#[kani::proof]
+pub fn c13_t_two_sequences() {
+    let p1: u8 = kani::any();
+    let p2: u8 = kani::any();
+    kani::assume(p1 < 3 && p2 < 3);
+    let c1: u8 = kani::any();
+    let c2: u8 = kani::any();
+    let b1: bool = kani::any();
+    let b2: bool = kani::any();
+    let t1 = XLAT[c1 as usize];
+    let t2 = XLAT[c2 as usize];
+    kani::assume(t1 != 0xFF && t2 != 0xFF);
+    kani::assume(!known_xlat_forward(p1, c1) && !known_xlat_forward(p2, c2));
+    let mut s2 = ScancodeSet2::new();
+    let mut s1 = ScancodeSet1::new();
+    let feed2 = |s: &mut ScancodeSet2, p: u8, brk: bool, c: u8| -> ScanResult {
+        if p == 1 {
+            let _ = s.advance_state(0xE0);
+        } else if p == 2 {
+            let _ = s.advance_state(0xE1);
+        }
+        if brk {
+            let _ = s.advance_state(0xF0);
+        }
+        s.advance_state(c)
+    };
+    let feed1 = |s: &mut ScancodeSet1, p: u8, brk: bool, t: u8| -> ScanResult {
+        if p == 1 {
+            let _ = s.advance_state(0xE0);
+        } else if p == 2 {
+            let _ = s.advance_state(0xE1);
+        }
+        s.advance_state(t | if brk { 0x80 } else { 0 })
+    };
+    let r2a = feed2(&mut s2, p1, b1, c1);
+    let r2b = feed2(&mut s2, p2, b2, c2);
+    let r1a = feed1(&mut s1, p1, b1, t1);
+    let r1b = feed1(&mut s1, p2, b2, t2);
+    crate::show!("C13 two sequences: set2 ({},{},{:#04x}) ({},{},{:#04x}) -> {:?} {:?}; set1 -> {:?} {:?}", p1, b1, c1, p2, b2, c2, r2a, r2b, r1a, r1b);
+    // a translated byte that collides with a Set 1 prefix (E0/E1) is not a complete sequence there
+    let collide = |p: u8, brk: bool, t: u8| p == 0 && brk && (t == 0x60 || t == 0x61);
+    kani::assume(!collide(p1, b1, t1) && !collide(p2, b2, t2));
+    if is_key_event(&r2a) {
+        assert!(r1a == r2a, "C13: first sequence and its translation decode to different events");
+    }
+    if is_key_event(&r2b) {
+        assert!(r1b == r2b, "C13: a sequence following another one and its translation decode to different events");
+    }
+    kani::cover!(r2a.is_err() && is_key_event(&r2b));
+}
 
 /// Thorough: composed, above the scancode layer.  A symbolic Set 2 sequence and its translation are
 /// fed to two Keyboards with the same layout; events, modifiers and characters coincide.
